@@ -40,6 +40,7 @@ import Kopf.Lemmas.C15_Match
 import Kopf.Lemmas.C15_Cycle
 import Kopf.Lemmas.C15_Rediscover
 import Kopf.Model.C15_Selector
+import Kopf.Lemmas.C15_Essence
 namespace Kopf.C15
 
 variable {V : Type} [PyVal V]
@@ -1641,5 +1642,59 @@ example : ({ category := some "widgets" } : Selector).routeMemo [kexIn ["widgets
 example : ({ category := some "widgets" } : Selector).route [kexIn ["widgets"], kexIn [], kexIn ["widgets", "all"]]
     = [true, false, true] := by decide
 example : ([kexIn ["widgets"], kexIn []] : List Resource)[1]? = some (kexIn []) := rfl
+
+
+/-! ## several handlers' fields together (seed C15h): what the criteria of one handler see does not depend on the others
+
+`cause.old`/`cause.new` are essences: a field outside spec/labels/annotations is in them only because some handler
+names it, and ALL the handlers' fields are restored together (`DiffBaseStorage.build`; model `Kopf/Model/C15_Essence.lean`). -/
+namespace Essence
+open Kopf
+
+/-- FULL: whatever other fields the other handlers of the resource name -- repeated, overlapping, parents, children,
+    names that begin alike -- a handler's own field is decided on the OBJECT's value. -/
+theorem declared_field_seen (body : J) (fields : List Path) (p : Path) (h : p ∈ fields) :
+    seen body (restored fields) p = J.resolve? body p := by
+  unfold seen restored
+  rw [covered_of_mem h]; rfl
+
+/-- FULL: the other handlers' fields make no difference to what a handler's criteria see. -/
+theorem seen_independent_of_others (body : J) (before after : List Path) (p : Path) :
+    seen body (restored (before ++ p :: after)) p = seen body (restored [p]) p := by
+  rw [declared_field_seen body _ p (by simp), declared_field_seen body [p] p (by simp)]
+
+/-- FULL: also everything UNDER a declared field is the object's (a handler on `status` sees `status.s`). -/
+theorem under_declared_field_seen (body : J) (fields : List Path) (q p : Path) (hq : q ∈ fields)
+    (hp : q.isPrefixOf p = true) : seen body (restored fields) p = J.resolve? body p := by
+  unfold seen restored covered
+  rw [List.any_eq_true.mpr ⟨q, hq, hp⟩]; rfl
+
+/-- FULL: the harmless economy -- not copying a field whose PATH-WISE ancestor is declared as well -- changes nothing. -/
+theorem drop_children_harmless (body : J) (fields : List Path) (p : Path) (h : p ∈ fields) :
+    seen body (dropChildren fields) p = J.resolve? body p := by
+  obtain ⟨r, hr, hrp⟩ := exists_root fields p p.length p (Nat.le_refl _) h (isPrefixOf_refl p)
+  unfold seen covered
+  rw [List.any_eq_true.mpr ⟨r, hr, hrp⟩]; rfl
+
+/-- the changed variant (skip a name when an earlier NAME is a textual prefix of it): `status.s` and `status.ss`
+    declared together, the object has both -- the handler of `status.ss` sees no field. -/
+theorem textual_skip_witness :
+    restoredTextual [["status", "s"], ["status", "ss"]] = [["status", "s"]] ∧
+    (seen (J.obj [("status", J.obj [("s", J.str "x"), ("ss", J.str "y")])])
+      (restoredTextual [["status", "s"], ["status", "ss"]]) ["status", "ss"]).isNone = true ∧
+    (seen (J.obj [("status", J.obj [("s", J.str "x"), ("ss", J.str "y")])])
+      (restored [["status", "s"], ["status", "ss"]]) ["status", "ss"]).isSome = true ∧
+    (seen (J.obj [("status", J.obj [("s", J.str "x"), ("ss", J.str "y")])])
+      (restoredTextual [["status", "s"], ["status", "ss"]]) ["status", "s"]).isSome = true := by
+  decide
+
+-- a real parent and its child survive the changed variant (why the seeder's own control cases pass):
+example : (seen (J.obj [("status", J.obj [("s", J.str "x")])]) (restoredTextual [["status"], ["status", "s"]]) ["status", "s"]).isSome
+    = true := by decide
+-- non-vacuity of `drop_children_harmless` / `under_declared_field_seen`: a parent, its child and a look-alike sibling
+example : dropChildren [["status", "s", "t"], ["status", "s"], ["status", "ss"]] = [["status", "s"], ["status", "ss"]] := by decide
+example : (["status"] : Path) ∈ [["status"], ["status", "s"]] ∧ (["status"] : Path).isPrefixOf ["status", "s"] = true := by decide
+
+end Essence
 
 end Kopf.C15
